@@ -73,6 +73,31 @@ def replay_root(model, deviation=False, family=False):
     return worst is not None, (worst or {"what": "returned Z is a root at every replayed point", "inputs": m})
 
 
+def replay_tolerance(model):
+    """Real z_factor_DAK at low pressures of the witness' gas: the returned Z must still be a root (relative residual)."""
+    from bluebonnet.fluids import gas
+    m = model_floats(model, ["Tr", "pr", "TpcR", "ppc"], default=dict(Tr=2.0, TpcR=380.0, ppc=650.0))
+    worst = None
+    for Tr in (m["Tr"], 1.1, 1.5, 2.4, 3.0):
+        for p in (m["pr"] * m["ppc"], 1.0, 1.3, 2.0, 3.7, 5.0, 8.1):
+            q = dict(m, Tr=Tr, pr=p / m["ppc"])
+            T_, p_, Tpc, ppc = _real_inputs(q)
+            z = float(gas.z_factor_DAK(T_, p_, Tpc, ppc))
+            rho = 0.27 * q["pr"] / (z * Tr)
+            res = dak_residual(rho, Tr, q["pr"], math.exp, num=float, deviation=True)
+            if abs(res) > 1e-7 * z and (worst is None or abs(res) / z > worst[0]):
+                worst = (abs(res) / z, f"z_factor_DAK(T={T_:.6g}, p={p_:.6g} psia, Tpc={Tpc:.6g}, ppc={ppc:.6g}) = {z!r}: DAK residual {res!r} "
+                                        f"(relative {abs(res) / z:.2e}) - the root finder's tolerance is not at rounding level for small densities")
+    return worst is not None, {"what": worst[1] if worst else "roots at rounding level down to 1 psia", "inputs": m}
+
+
+def _scipy_brentq_defaults():
+    import inspect
+    from scipy.optimize import brentq as real
+    sig = inspect.signature(real)
+    return {k: sig.parameters[k].default for k in ("xtol", "rtol")}
+
+
 def job_dak(job):
     job.solve_defaults = {"elim": True}   # the root finder's f(r) = 0 is solved for p_r (linear, monomial coefficient)
     job.stub("scipy.optimize.minimize: contract stub (result.x inside the bounds handed over; objective closure "
@@ -133,6 +158,17 @@ def job_dak(job):
             return T.b_or(T.b_lt(bound, P(F)), T.b_lt(bound, T.p_neg(P(F))))
 
         if form == "brentq":
+            # the tolerance the root finder is allowed: |r - root| <= xtol + rtol |root| (scipy's contract).  Z is
+            # 0.27 p_r / (rho T_r), so its relative error is that of rho; the smallest admissible root is the lower end
+            # of the bracket handed over.  Claim: relative error <= 1e-7 for every state of the rectangle with p >= 1 psia.
+            dflt = _scipy_brentq_defaults()
+            xtol = brs[0]["xtol"] if brs[0]["xtol"] is not None else K(repr(dflt["xtol"]))
+            rtol = brs[0]["rtol"] if brs[0]["rtol"] is not None else K(repr(dflt["rtol"]))
+            lo_end = brs[0]["a"]
+            job.prove("dak/root-finder tolerance at rounding level relative to the root (p >= 1 psia)",
+                      dom + [T.b_le(T.ONE, P(pr * ppc)), T.b_lt(P(K("1e-7") * lo_end), P(xtol + rtol * lo_end))],
+                      bound="rectangle, p >= 1 psia (below that the absolute floor of any tolerance dominates: outside the claim)",
+                      replay=replay_tolerance, note=f"xtol={float(xtol)!r}, rtol={float(rtol)!r}, smallest admissible root = lower bracket end")
             same = brs[0]["same_sign"]
             job.prove("dak/bracket-precondition-can-fail", dom + [same.node if hasattr(same, "node") else T.b_const(bool(same))],
                       bound="rectangle", timeout=(10 if job.tier == "quick" else 120), expect="info",
